@@ -138,7 +138,28 @@ def _check_vector(ctx, n, stats, realise=True):
         p1 = ctx.call(prs.pc, xs)
         if not p1.ok or not _close(p1.value, want_pc):
             ctx.violation("pc:sample-vs-counts", "pc(sample) != exact U-statistic of its counts", p1.describe(), str(want_pc), {"n": list(n)})
+        # a resampling loop that draws every sample into one and the same array (content replaced in place between the calls)
+        buf = _BUFS.setdefault(N, np.zeros(N, dtype=np.int64))
+        buf[:] = 0                       # the previous draw of the loop: a one-category sample (pc = 1) ...
+        prev = ctx.call(prs.pc, buf)
+        if not prev.ok or not _close(prev.value, 1):
+            ctx.violation("pc:sample-buffer-reused", "pc(one-category sample in the reused array) != 1", prev.describe(), "1", {"n": [N]})
+        buf[:] = xs                      # ... directly followed by this one in the same array object
+        pb = ctx.call(prs.pc, buf)
+        ctx.count("sample_buffer_reused")
+        if not pb.ok or not _close(pb.value, want_pc):
+            ctx.violation("pc:sample-buffer-reused", "pc(sample drawn into a reused array) != exact U-statistic of its present content",
+                          pb.describe(), str(want_pc), {"n": list(n)})
+        if N >= 4 and want_pc * want_pc - O.U22(n) > 0:
+            sb = ctx.call(prs.stdpc, buf)
+            wv = want_pc * want_pc - O.U22(n)
+            if not sb.ok or not _close(float(sb.value) ** 2 if sb.ok else None, wv, 1e-10):
+                ctx.violation("stdpc:sample-buffer-reused", "stdpc(sample drawn into a reused array)^2 != varpc_n(counts of its present content)",
+                              sb.describe(), str(wv), {"n": list(n)})
     stats.append(1)
+
+
+_BUFS = {}
 
 
 def k_vecs(ctx, N, K):
